@@ -311,3 +311,21 @@ def choose_state(rng, qd, L, bstyle, Dmax, need_uniform=False):
                     complete=False, uniform=False)
     Ds = small_profile(rng, L, d, Dmax, bstyle)
     return dict(qD=state_charges(rng, qd, L, Ds, qL), qL=qL, complete=False, uniform=False)
+
+
+def irreducible(M, tol):
+    """True iff the graph with an edge (i, j) wherever |M[i, j]| > tol is connected (M has no invariant
+    coordinate subspace, so a generic vector overlaps with every eigenvector)"""
+    n = M.shape[0]
+    if n <= 1:
+        return True
+    adj = np.abs(M) > tol
+    adj = adj | adj.T
+    seen = np.zeros(n, dtype=bool)
+    seen[0] = True
+    front = [0]
+    while front:
+        nxt = np.flatnonzero(adj[front].any(axis=0) & ~seen)
+        seen[nxt] = True
+        front = list(nxt)
+    return bool(seen.all())
